@@ -5052,5 +5052,8 @@ DFSDPshutdown(void)
     free(Lastfile);
     Lastfile = NULL;
 
+    /* Allow the interface to be initialized again */
+    library_terminate = FALSE;
+
     return SUCCEED;
 } /* end DFSDPshutdown() */
